@@ -400,7 +400,9 @@ class GGHPlain(_Hash):
     skip_facets = "CT"
 
     def configs(self, tier):
-        return [dict(n=n) for n in (0, 1, 3)]
+        # every supported field: the generator's mask width and rejection loop depend on the prime (the curve25519
+        # order sits just above a power of two: about half of the candidates are rejected there)
+        return [dict(n=n) for n in (0, 1, 3)] + [dict(n=3, prime=q) for q in ("bls12_381", "curve25519")]
 
     def setup(self, c, cfg):
         apply_mode(c, "plain")
@@ -416,7 +418,9 @@ class GGHPlain(_Hash):
         coefs = [_prng_reference(i, p) for i in range(len(bits))]
         return {"V.modulus": self._gm.PRIME == p,
                 "V.value": Eq(r, z3.Sum([z3.IntVal(0)] + [k * term(b) for k, b in zip(coefs, bits)]) % p),
-                "V.plain_int": isinstance(r, int)}
+                "V.plain_int": isinstance(r, int),
+                "V.prng_matches_reference(bounded)": all(self._gm.SHA512_prng(i) == _prng_reference(i, p) for i in range(32)),
+                "V.mask_width": self._gm.bitlength(p) == p.bit_length()}
 
 
 @register
